@@ -337,7 +337,14 @@ fn run_op_in_copy(w: &mut World, r: &mut Rng, op_no: usize, op: Op) -> Option<Re
         protected[i] = ps.iter().any(|p| protected[*p]) && ps.iter().all(|p| protected[*p] || !desc_of_receiver(*p)) && !receivers.contains(&i);
     }
     let mut bad: Option<(&'static str, String)> = None;
-    let mut fail = |sig: &'static str, d: String| { if bad.is_none() { bad = Some((sig, d)); } };
+    // `split --parallel` is not a split into two *sequential* commits (outside the property text): the descendants, the
+    // working-copy commit and hence the files on disk are re-merged over two sibling parents and a conflicted tree may be
+    // re-expressed; its tree-preservation clauses are not judged (the structural clauses still are).
+    let is_par = matches!(op, Op::SplitPar { .. });
+    let mut fail = |sig: &'static str, d: String| {
+        let tree_clause = matches!(sig, "stack-edit:descendant-tree-changed" | "stack-edit:working-copy-commit-tree-changed" | "stack-edit:working-copy-files-changed");
+        if bad.is_none() && !(is_par && tree_clause) { bad = Some((sig, d)); }
+    };
     let same_tree = |a: &Option<Commit>, b: &Commit| a.as_ref().is_some_and(|a| a.tree_ids() == b.tree_ids());
     for i in 1..=n {
         if i == top {
